@@ -18,6 +18,7 @@ def afterValidate (o : Opts) (tznames : List Token) (tzi : TzInfos) (dflt : DT) 
   | .ok naive =>
     if o.ignoretz then .ok { dt := naive, tz := .naive, tokens := none }
     else match buildTzaware tznames tzi res2 with
+      | .error .ValueError => .error .ParserError
       | .error e => .error e
       | .ok z => .ok { dt := naive, tz := z, tokens := none }
 
@@ -57,7 +58,9 @@ theorem parseResult_of_loop (cls : Char → CClass) (info : Info) (o : Opts) (tz
           by_cases hig : o.ignoretz = true
           · simp [hig]
           · simp only [hig, if_false, Bool.false_eq_true]
-            cases buildTzaware tznames tzi res2 <;> simp
+            cases buildTzaware tznames tzi res2 with
+            | ok z => simp
+            | error e => cases e <;> simp
 
 /-- the zone the suffix must give (`naive` when `ignoretz`) -/
 def offZone (o : Opts) (tznames : List Token) (off : Off) : TzDescr :=
@@ -172,7 +175,7 @@ theorem afterValidate_tz (df yf : Bool) (year century : Int) (o : Opts) (tznames
       simp [offZone, hig, hR.1]
     · simp only [hig, if_false, Bool.false_eq_true] at hR ⊢
       cases hz : buildTzaware tznames tzi RR with
-      | error e => rw [hz] at hR; simp at hR
+      | error e => rw [hz] at hR; cases e <;> simp at hR
       | ok z =>
         rw [hz] at hR
         simp only [Except.ok.injEq, Result.mk.injEq] at hR
